@@ -90,7 +90,7 @@ class Driver:
     def env_step(self, kind, w):
         sw = self.workers[w]
         if kind == 'step':
-            if sw.st != 'run' or not sw.inbox:
+            if sw.st != 'run' or not sw.inbox or getattr(sw, 'frozen', False):
                 return
             x, tag = sw.inbox.pop(0)
             if x in self.scn['poison'] or (w in self.scn['bad'] and sw.counter >= self.scn.get('bad_after', 0)):
@@ -112,7 +112,7 @@ class Driver:
                 return
             progressed = False
             for sw in self.workers.values():
-                if sw.st == 'run' and sw.inbox:
+                if sw.st == 'run' and sw.inbox and not getattr(sw, 'frozen', False):
                     self.env_step('step', sw.id)
                     progressed = True
                     break
@@ -299,6 +299,7 @@ def run_real(scn, h, cis):
             owing = [w for w, sw in sorted(drv.workers.items()) if sw.st == 'run' and sw.inbox]
             if owing and len([sw for sw in drv.workers.values() if sw.st == 'run']) > 1:
                 drv.kill_on_enqueue = owing[0]
+                drv.workers[owing[0]].frozen = True      # it makes no progress any more: what it owes is never answered
                 drv.kill_countdown = scn['extra'] + 1
         try:
             r2 = p.run(iter(range(101, 101 + n2)), worker_extra_pending_inputs=scn['extra'])
